@@ -161,7 +161,7 @@ def run_case(res, base, case, r, idx):
     text, rules, opts, desc = case
     runs = []
     for k, v in enumerate(variants(r)):
-        cfg = {'monitors': ['write'], 'write_text': True}
+        cfg = {'monitors': ['write', 'mut'], 'write_text': True}
         if v['inj']:
             cfg['delay'] = v['inj']
         wd = os.path.join(base, f'c{idx}_{k}')
@@ -190,7 +190,9 @@ def run_case(res, base, case, r, idx):
         fresh_seen = next((i for i, e in enumerate(ws)
                            if e.get('has_fresh')), None)
         runs.append((v, chain, run.out_bytes, fresh_seen,
-                     [e.get('text') for e in ws]))
+                     [e.get('text') for e in ws],
+                     [(e['strategy'], e['passes']) for e in run.events
+                      if e['ev'] == 'passes']))
     ref = runs[0]
     res.count('cases')
     res.add_set('chain_lengths', len(ref[1]))
@@ -200,8 +202,21 @@ def run_case(res, base, case, r, idx):
             res.count('cases_with_parse_time_fresh_name_in_output')
     if len(ref[1]) >= 2:
         res.add_distinct(common.digest(text + repr(rules) + repr(opts)))
-    for v, chain, out, fresh_seen, texts in runs[1:]:
+    for v, chain, out, fresh_seen, texts, passes in runs[1:]:
         res.count('pairs_compared')
+        # the order in which the mutators are scheduled is part of what a
+        # sequential run does: it must not depend on the hash seed either
+        if passes != ref[5]:
+            res.count('schedules_compared')
+            w = dict(desc)
+            w.update({'variant': v, 'reference_variant': ref[0],
+                      'schedule_reference': ref[5], 'schedule_variant': passes})
+            res.violation(
+                'nondeterministic-schedule',
+                f'two -j1 runs schedule their mutators in different orders '
+                f'(variant {v} vs {ref[0]})', w)
+            break
+        res.count('schedules_compared')
         if chain != ref[1] or out != ref[2]:
             # first differing write
             d = next((i for i, (x, y) in enumerate(zip(chain, ref[1]))
